@@ -15,8 +15,10 @@ PIPES = {
     "C08": ["prog", "exact"],
     "C09": ["prog", "exact"],
     "C10": ["prog"],
+    "C17": ["render"],
+    "C18": ["render"],
 }
-LEVEL = {}
+LEVEL = {"C17": "exploration", "C18": "exploration"}
 
 
 def _pipe(name):
